@@ -187,7 +187,7 @@ class Module:
         self.name = name
         self.relpath = relpath  # src/mygrad/...
         self.src = src
-        self.tree = _normalise(ast.parse(src))
+        self.tree = _parse_normalised(src)
         self.lines = src.split("\n")
         self.symbols: Dict[str, Binding] = {}
         self.star_imports: List[str] = []
@@ -227,6 +227,25 @@ class _AnnToAssign(ast.NodeTransformer):
         if node.value is None:
             return ast.copy_location(ast.Pass(), node)
         return ast.copy_location(ast.Assign(targets=[node.target], value=node.value, type_comment=None), node)
+
+
+_NORM_CACHE: Dict[str, bytes] = {}
+
+
+def _parse_normalised(src: str) -> ast.AST:
+    """parse + normal form, memoised per process on the source text (rules mutate the trees they get -- inlining, canonical names -- so every
+    caller receives a private copy, rebuilt from the pickled normal form)"""
+    import pickle
+    key = hashlib.sha256(src.encode()).hexdigest() + os.environ.get("SA_NO_NORMAL", "")
+    blob = _NORM_CACHE.get(key)
+    if blob is None:
+        tree = _normalise(ast.parse(src))
+        try:
+            _NORM_CACHE[key] = pickle.dumps(tree, protocol=pickle.HIGHEST_PROTOCOL)
+        except Exception:  # noqa
+            pass
+        return tree
+    return pickle.loads(blob)
 
 
 def _normalise(tree: ast.AST) -> ast.AST:
@@ -283,6 +302,19 @@ class Project:
         self.classes: Dict[str, ClassInfo] = {}
         self.unresolved: List[str] = []
         self._load()
+        self.drift_log: List[str] = []
+        if os.environ.get("SA_NO_DRIFT") != "1":
+            from .drift import canonicalise_drift, load_table
+            self.drift_log = canonicalise_drift({m.name: m.tree for m in self.modules.values()}, load_table())
+            if self.drift_log:
+                from .normal import normalise as _renorm
+                for m in self.modules.values():
+                    if os.environ.get("SA_NO_NORMAL") != "1" and any(" D3 " in " " + l for l in self.drift_log):
+                        m.tree = _renorm(m.tree)   # a specialised parameter leaves `if False:` / `x if True else y` behind
+                    ast.fix_missing_locations(m.tree)
+                    for n in ast.walk(m.tree):
+                        for ch in ast.iter_child_nodes(n):
+                            ch._parent = n  # type: ignore[attr-defined]
         self._index()
         self._link_classes()
         self.inline_log: List[str] = []
